@@ -699,3 +699,94 @@ Proof.
   split; [exact A|split; [exact B|]].
   assert (n - 1 < length (lines src)) by (apply nth_error_Some; congruence). lia.
 Qed.
+
+(* ---------- rendered string / regex errors ---------- *)
+
+Lemma count_nl_firstn_S : forall j (s : bytes) c,
+  nth_error s j = Some c ->
+  count_nl (firstn (S j) s) = count_nl (firstn j s) + (if N.eqb c 10 then 1 else 0).
+Proof.
+  induction j as [|j IH]; intros [|x s] c H; simpl in H; try discriminate.
+  - inversion H; subst. simpl. destruct (N.eqb c 10); reflexivity.
+  - change (firstn (S (S j)) (x :: s)) with (x :: firstn (S j) s).
+    change (firstn (S j) (x :: s)) with (x :: firstn j s).
+    cbn [count_nl]. rewrite (IH s c H). destruct (N.eqb x 10); lia.
+Qed.
+
+(* unterminated string whose opening quote is followed, on the same line, by another byte:
+   the error is rendered on the line of the quote, one column to its right *)
+Theorem string_error_caret_proof : forall src l p l' text n col,
+  lex_inv src l -> lex_next l = LexErr p l' -> lstart l' <> p ->
+  p < length src -> nth_error src p <> Some 10%N ->
+  get_line_col src p = (text, n, col) ->
+  n = S (line_of_pos src (lstart l')) /\
+  nth_error (lines src) (line_of_pos src (lstart l')) = Some text /\
+  col = (Z.of_nat (col_of_pos src (lstart l')) + 1)%Z /\
+  (1 <= col < Z.of_nat (length text))%Z /\
+  nth_error text (Z.to_nat col - 1) = nth_error src (lstart l') /\
+  exists q, (q = 39%N \/ q = 34%N) /\ nth_error src (lstart l') = Some q.
+Proof.
+  intros src l p l' text n col Hinv H Hst Hlt Hnn Hg.
+  destruct (lexer_error_in_string_proof src l p l' Hinv H Hst)
+    as (A & B & C & D & E & F & q & Hq & Hsq & Hno).
+  destruct (pos_exact_proof src p text n col Hlt Hnn Hg) as (E1 & E2 & E3 & E4 & E5 & E6).
+  set (j := lstart l') in *.
+  assert (Hq10 : N.eqb q 10 = false) by (destruct Hq; subst q; reflexivity).
+  assert (Hline : line_of_pos src p = line_of_pos src j).
+  { unfold line_of_pos. rewrite A. rewrite (count_nl_firstn_S j src q Hsq). rewrite Hq10. lia. }
+  assert (Hjlt : j < length src) by (apply nth_error_Some; congruence).
+  assert (Hjnn : nth_error src j <> Some 10%N).
+  { rewrite Hsq. intro X. inversion X; subst. discriminate Hq10. }
+  destruct (pos_in_line src j Hjlt Hjnn) as (I1 & I2 & I3).
+  fold (line_of_pos src j) in I1, I2, I3.
+  assert (Htext : nth (line_of_pos src j) (lines src) [] = text).
+  { rewrite <- Hline. apply nth_error_nth. exact E2. }
+  rewrite Htext in I2, I3.
+  rewrite Hline in *. unfold col_of_pos in *. rewrite Hline in E4.
+  split; [exact E1|split; [exact E2|]].
+  split; [lia|split; [lia|split]].
+  - replace (Z.to_nat col - 1) with (j - line_start src (line_of_pos src j)) by lia. exact I3.
+  - exists q. split; assumption.
+Qed.
+
+(* unterminated regex: rendered exactly on the opening '/' *)
+Theorem regex_error_caret_proof : forall src l0 t l p l' text n col,
+  lex_inv src l0 -> lex_next l0 = LexTok t l -> ttag t = TDivide ->
+  lex_regex l = LexErr p l' ->
+  get_line_col src p = (text, n, col) ->
+  p = tpos t /\ n = S (line_of_pos src p) /\
+  nth_error (lines src) (line_of_pos src p) = Some text /\
+  col = Z.of_nat (col_of_pos src p) /\ (0 <= col < Z.of_nat (length text))%Z /\
+  nth_error text (Z.to_nat col) = Some 47%N.
+Proof.
+  intros src l0 t l p l' text n col Hinv H Ht Hre Hg.
+  destruct (lexer_error_in_regex_proof src l0 t l p l' Hinv H Ht Hre) as (A & B & C & D & E).
+  assert (Hnn : nth_error src p <> Some 10%N) by (rewrite B; discriminate).
+  destruct (pos_exact_proof src p text n col C Hnn Hg) as (E1 & E2 & E3 & E4 & E5 & E6).
+  split; [exact A|split; [exact E1|split; [exact E2|split; [exact E4|split; [exact E5|]]]]].
+  rewrite E6. exact B.
+Qed.
+
+(* ---------- Parser.advance: the fuel of the newline-skipping loop is adequate ---------- *)
+
+Lemma lex_inv_rest_length : forall src l, lex_inv src l -> length (lrest l) = length src - lpos l.
+Proof. intros src l (A & B & C). rewrite A. apply skipn_length. Qed.
+
+(* with more fuel than unread bytes the result does not depend on the fuel: the artificial
+   [LexErr 0] of the fuel-exhausted branch is never produced by [advance] *)
+Theorem next_non_newline_fuel_proof : forall src fuel1 fuel2 l saw,
+  lex_inv src l -> length (lrest l) < fuel1 -> length (lrest l) < fuel2 ->
+  next_non_newline fuel1 l saw = next_non_newline fuel2 l saw.
+Proof.
+  intros src. induction fuel1 as [|f1 IH]; intros fuel2 l saw Hinv H1 H2; [lia|].
+  destruct fuel2 as [|f2]; [lia|]. simpl.
+  generalize (lex_next_spec src l Hinv).
+  destruct (lex_next l) as [t l'|pos l']; [|reflexivity].
+  unfold next_tok_post, tok_post. intros ((A1 & A2 & _) & _ & C & _).
+  destruct (ttag t) eqn:Et; try reflexivity.
+  destruct (C ltac:(discriminate)) as (_ & C2 & _).
+  rewrite (lex_inv_rest_length src l Hinv) in H1, H2.
+  assert (Hl' := lex_inv_rest_length src l' A2).
+  pose proof A2 as (_ & B2 & _).
+  apply IH; [exact A2|lia|lia].
+Qed.
